@@ -41,7 +41,7 @@ Proof.
   destruct HS' as ((Hh & He & Hk' & Hw & Hok & Hsh & Htl) & _).
   eexists _, _. split; [reflexivity|]. split; [|exact Hk'].
   exists ds'. cbn [app item_msgs] in Htl.
-  split; [exact Hw|]. split; [|auto].
+  split; [rewrite <- rev_alt; exact Hw|]. split; [|auto].
   intros ->. destruct (Htl []) as [_ B]. cbn in B. discriminate B.
 Qed.
 
